@@ -66,6 +66,11 @@ def holds (env : Env) (sc : Scenario) (obs : List Obs) : Bool :=
     (if !ended sc obs && r.rest.length ≥ r.n &&
         (match sc.events.getLast? with | some (.api .readAll) => true | _ => false)
      then Obs.reads obs == entitled r && Obs.countP Obs.isHp obs == 1 && Obs.countP Obs.isRcf obs == 1
+     else true) &&
+    -- arrived bytes stay readable: a reader that drains at the end has everything that arrived of the body,
+    -- however much of it that is
+    (if !ended sc obs && (match sc.events.getLast? with | some (.api .readAll) => true | _ => false)
+     then Obs.reads obs == entitled r && Obs.countP Obs.isHp obs == 1
      else true)
 
 /-! ## Theorems
@@ -140,7 +145,9 @@ theorem holds_of_facts (env : Env) (sc : Scenario) (obs : List Obs) (r : Req)
     (h2 : Obs.countP Obs.isHp obs ≤ 1) (h3 : Obs.countP Obs.isRcf obs ≤ 1)
     (h4 : walk sc.events r obs 0 false none = true)
     (h5 : r.rest.length ≥ r.n → sc.events.getLast? = some (.api .readAll) →
-            Obs.reads obs = entitled r ∧ Obs.countP Obs.isHp obs = 1 ∧ Obs.countP Obs.isRcf obs = 1) :
+            Obs.reads obs = entitled r ∧ Obs.countP Obs.isHp obs = 1 ∧ Obs.countP Obs.isRcf obs = 1)
+    (h6 : sc.events.getLast? = some (.api .readAll) →
+            Obs.reads obs = entitled r ∧ Obs.countP Obs.isHp obs = 1) :
     holds env sc obs = true := by
   unfold holds
   rw [hreq]
@@ -148,10 +155,11 @@ theorem holds_of_facts (env : Env) (sc : Scenario) (obs : List Obs) (r : Req)
   simp only [e1, h2, h3, h4, decide_true, Bool.and_self, Bool.true_and]
   split
   · rename_i hl
+    obtain ⟨g1, g2⟩ := h6 hl
     by_cases hN : r.rest.length ≥ r.n
     · obtain ⟨f1, f2, f3⟩ := h5 hN hl
       simp [f1, f2, f3]
-    · simp [hN]
+    · simp [hN, g1, g2]
   · simp
 
 /-- **C02, main theorem.** For every environment, every reader application (arbitrary reactions
@@ -170,7 +178,7 @@ theorem holds_run (env : Env) (app : App) (happ : ReaderApp app) (evs : List Eve
       run_inv env app happ acc r.rest hfin evs [] (by simp) hok
     have hpre := hR.reads_prefix hfin (List.prefix_refl _)
     obtain ⟨chp, crcf, cwalk, ctc⟩ := hR.counts
-    refine holds_of_facts env ⟨app, evs⟩ _ r hreq hpre ?_ ?_ ?_ ?_
+    refine holds_of_facts env ⟨app, evs⟩ _ r hreq hpre ?_ ?_ ?_ ?_ ?_
     · show Obs.countP Obs.isHp (Sock.run env app evs).log ≤ 1
       rw [chp]; split <;> omega
     · show Obs.countP Obs.isRcf (Sock.run env app evs).log ≤ 1
@@ -193,6 +201,22 @@ theorem holds_run (env : Env) (app : App) (happ : ReaderApp app) (evs : List Eve
       obtain ⟨f1, f2, f3⟩ := hRp.final_readAll env app hfin hN (pre.foldl (Sock.stepK env app) ({}, 0)).2
       rw [← hrun] at f1 f2 f3
       exact ⟨f1, f2, f3⟩
+    · intro hl
+      obtain ⟨pre, hpe⟩ := List.getLast?_eq_some_iff.mp hl
+      have hpe : evs = pre ++ [.api .readAll] := hpe
+      have hRp : RInv evs head r.n (Scenario.fed pre) (Sock.run env app pre) :=
+        run_inv env app happ acc r.rest hfin pre [.api .readAll] hpe
+          (fun e he => hok e (by rw [hpe]; simp [he]))
+      have hfp : Scenario.fed pre = Scenario.fed evs := by
+        rw [hpe, fed_append, fed_single]; simp [evBytesOf]
+      rw [hfp] at hRp
+      have hrun : Sock.run env app evs =
+          (Sock.stepK env app (Sock.run env app pre, (pre.foldl (Sock.stepK env app) ({}, 0)).2)
+            (.api .readAll)).1 := by
+        rw [hpe]; simp [Sock.run, List.foldl_append]
+      obtain ⟨f1, f2⟩ := hRp.final_readAll_partial env app hfin (pre.foldl (Sock.stepK env app) ({}, 0)).2
+      rw [← hrun] at f1 f2
+      exact ⟨f1, f2⟩
 
 /-! ## The property in plain terms
 
